@@ -305,4 +305,51 @@ def rule_factory_remove(P):
     return R
 
 
-RULES = [rule_forest_dtor, rule_unregister, rule_registry, rule_library, rule_entry_types, rule_factory_remove]
+def rule_op_registration(P):
+    """operation::destroyAllWithForest finds the operations of a dying forest through their forest list: an operation base-class
+    constructor must register the operation in every forest it stores, and the destructor must unregister the same ones"""
+    R = RuleResult("life.op-registers-forests", "every constructor of the operation base classes registers the operation in each forest it stores (registerInForest), and the destructor unregisters each: destroying any one of those forests then destroys the operation")
+    bases = ("binary_operation", "unary_operation", "ternary_operation", "saturation_operation")
+    n = 0
+    for b in bases:
+        ctors = [f for f in P.by_q.get("MEDDLY::%s::%s" % (b, b), []) if f.get("cfg")]
+        dtors = [f for f in P.by_q.get("MEDDLY::%s::~%s" % (b, b), []) if f.get("cfg")]
+        stored_any = set()
+        for f in ctors:
+            g = Graph(f)
+            R.functions.add(f["inst"])
+            fparams = {p["name"] for p in f["params"] if p["rec"] == "forest"}
+            stored = {}
+            for nd in g.nodes:
+                if nd.kind == "store" and nd.ev["rhs"].strip() in fparams and nd.ev["base"] == "this":
+                    stored[nd.ev["member"].split("::")[-1]] = nd
+                if nd.kind == "init" and nd.ev.get("member") and nd.ev["text"].strip() in fparams:
+                    stored[nd.ev["member"]] = nd
+            for m, nd in sorted(stored.items()):
+                n += 1
+                stored_any.add(m)
+                R.paths += 1
+                hit = lambda x, m=m: x.kind == "call" and qmatch(x.ev["q"], "operation::registerInForest") and [a.replace("this->", "") for a in x.ev["args"]] == [m]
+                p = g.path(g.entry, lambda x: x.id == g.exit, avoid=hit)
+                iid = "%s%s registers in %s" % (f["q"].replace("MEDDLY::", ""), f["sig"][:40], m)
+                if g.where(hit) and not p:
+                    R.ok(iid, where(f, nd.line))
+                else:
+                    R.fail(iid, where(f, nd.line), Finding(R.rule, f["file"], f["q"] + f["sig"], "registerInForest(%s)" % m,
+                           "the operation stores forest %s but does not register itself there: destroying only that forest leaves the operation alive (in its factory, with a dangling forest pointer)" % m, nd.line, show_path(p) if p else None))
+        for d in dtors:
+            g = Graph(d)
+            R.functions.add(d["inst"])
+            for m in sorted(stored_any):
+                n += 1
+                hit = lambda x, m=m: x.kind == "call" and qmatch(x.ev["q"], "operation::unregisterInForest") and [a.replace("this->", "") for a in x.ev["args"]] == [m]
+                iid = "%s unregisters from %s" % (d["q"].replace("MEDDLY::", ""), m)
+                if g.where(hit) and not g.path(g.entry, lambda x: x.id == g.exit, avoid=hit):
+                    R.ok(iid, where(d))
+                else:
+                    R.fail(iid, where(d), Finding(R.rule, d["file"], d["q"], "unregisterInForest(%s)" % m, "the destructor does not unregister the operation from forest %s" % m, d["line"]))
+    R.require_floor(18, "forest registrations of the operation base classes")
+    return R
+
+
+RULES = [rule_forest_dtor, rule_unregister, rule_registry, rule_library, rule_entry_types, rule_factory_remove, rule_op_registration]
